@@ -410,6 +410,11 @@ def run(ctx):
                 add("violation", {"defect": "two-quote-atom-written-as-empty", "writer": name},
                     "term %s written by %s as %r reads back: %s (C55-1: the atom '' of two quote characters is written as the empty atom)"
                     % (pl_text(c["term"]), name, text, verdict), c)
+            elif verdict != "same" and name != "write_canonical" and prefix_before_opatom(c["term"], merged_ops(default_ops, c["ops"])):
+                ok = False
+                add("violation", {"defect": "prefix-operator-glued-to-bracketed-operator-atom", "writer": name},
+                    "term %s with ops %r written by %s as %r reads back: %s (C15-1: no space between a prefix operator and the "
+                    "bracket of an operator atom that starts its operand)" % (pl_text(c["term"]), c["ops"], name, text, verdict), c)
             elif verdict != "same":
                 ok = False
                 add("violation", {"what": "roundtrip", "writer": name, "result": verdict, "shape": shape, "user_ops": str(bool(c["ops"]))},
@@ -417,7 +422,8 @@ def run(ctx):
             mo = m2.get("m%s_%d" % (c["id"], k), "missing")
             if mo.startswith("notmodelled"):
                 hist["model_not_modelled"] += 1
-            elif has_two_quote_atom(c["term"]) and verdict != "same":
+            elif verdict != "same" and (has_two_quote_atom(c["term"]) or (name != "write_canonical" and
+                                          prefix_before_opatom(c["term"], merged_ops(default_ops, c["ops"])))):
                 pass
             elif not same_tree(parse_sx(mo), want_t):
                 ok = False
@@ -459,6 +465,36 @@ def run(ctx):
 
 def has_two_quote_atom(t):
     return (t[0] in ("a", "c") and t[1] == "\'\'") or (t[0] == "c" and any(has_two_quote_atom(x) for x in t[2]))
+
+
+def leftmost_opatom(t, tbl):
+    """does printing `t` as an operand start with a bracketed operator atom? (the leftmost leaf, descending through
+    left operands of infix/postfix operator terms, is an atom that is an operator)"""
+    while True:
+        if t[0] == "a":
+            return any(n == t[1] for _, _, n in tbl) and t[1] not in ("[]", "{}")
+        if t[0] != "c":
+            return False
+        ar = len(t[2])
+        classes = {op_class(ty) for _, ty, n in tbl if n == t[1]}
+        if ar == 2 and "in" in classes and t[1] != ".":
+            t = t[2][0]
+        elif ar == 1 and "post" in classes and "pre" not in classes:
+            t = t[2][0]
+        else:
+            return False
+
+
+def prefix_before_opatom(t, tbl):
+    """the shape of defect C15-1: a prefix-operator term whose operand is an infix/postfix operator term that starts
+    with a (bracketed) operator atom"""
+    if t[0] != "c":
+        return False
+    if len(t[2]) == 1 and any(n == t[1] and op_class(ty) == "pre" for _, ty, n in tbl):
+        x = t[2][0]
+        if x[0] == "c" and leftmost_opatom(x, tbl):
+            return True
+    return any(prefix_before_opatom(x, tbl) for x in t[2])
 
 
 def classify(t):
